@@ -102,8 +102,12 @@ def zeros(ctx):
                 # Laguerre polynomial's leading coefficient is 1/n!, so only tolerances below it are in scope
                 if fam == "laguerre" and 1.0 / math.factorial(n) < 10 * tol:
                     continue
-                cases.append({"kind": "zeros", "coefs": [c11.cz(0.0)], "cx": False, "tol": fp(tol), "n_max": 2000, "truth": [],
-                              "fam": fam, "n": n, "ptol": fp(1e-12)})
+                # the two tolerances are independent arguments (root finder / polynomial constructor): 1e-12 and, as the
+                # crate's own tests pass it, 1e-30 for the constructor; a coarse constructor tolerance with a fine root tolerance
+                ptols = [1e-12, 1e-30] + ([1e-3] if fam != "laguerre" and tol == 1e-10 else [])
+                for ptol in ptols:
+                    cases.append({"kind": "zeros", "coefs": [c11.cz(0.0)], "cx": False, "tol": fp(tol), "n_max": 2000, "truth": [],
+                                  "fam": fam, "n": n, "ptol": fp(ptol)})
     return cases
 
 
